@@ -31,6 +31,8 @@ def run(ctx):
     _railrules.runner_order_once(ctx, "C02.a.order", flows, "output")
     b_flag(ctx, flows)
     c_checked_text_is_whole(ctx)
+    c_integration_reply(ctx)
+    a_generated_rails_imports(ctx)
     from . import C01
     C01.b_param_binding(ctx, rule="C02.a.param-binding")
     scope, nm = _railrules.reject_stop(ctx, "C02.c.reject-stop", ("output",))
@@ -390,3 +392,69 @@ def c_checked_text_is_whole(ctx):
                           "`%s` (line %d) replaces the text under check by a part of it: content after the cut is uttered but was never checked" % (first_line(cuts[0], 60), cuts[0].lineno),
                           line=(cuts[0].lineno if cuts else origin.lineno))
     ctx.floor("C02.c.checked-text-whole", "nemoguardrails/library", "rail actions reading the message text from the context", n, 10)
+
+
+RR = "nemoguardrails/integrations/langchain/runnable_rails.py"
+CFGPY = "nemoguardrails/rails/llm/config.py"
+
+
+def c_integration_reply(ctx):
+    """RunnableRails (LangChain integration) in passthrough mode hands back the `bot_message` context variable instead of the reply.  That variable still holds the text an
+    output rail has just blocked with a rail exception; it may be returned only after the response was checked for being an exception (F48)."""
+    if not ctx.tree.exists(RR):
+        ctx.note("C02.c: %s not present" % RR)
+        return
+    t = ctx.tree.ast(RR)
+    n = 0
+    for fn in functions(t):
+        reads = [a for a in walk_no_nested(fn) if isinstance(a, ast.Assign) and isinstance(a.value, ast.Call) and src(a.value.func) == "context.get" and a.value.args
+                 and isinstance(a.value.args[0], ast.Constant) and a.value.args[0].value == "bot_message"]
+        if not reads:
+            continue
+        cfg = CFG(fn)
+        guards = [m for m in cfg.nodes if m.kind == "test" and m.ast is not None and "exception" in src(m.ast) and "role" in src(m.ast)]
+        for a in reads:
+            n += 1
+            node = cfg.node_of(a)
+            ok = bool(guards) and cfg.must_pass(cfg.entry, node, guards)
+            ctx.check("C02.c.integration-reply", RR, qualname(fn), first_line(a, 60), ok,
+                      "the bot_message variable is used for the output only after the response was tested for a rail exception" if ok else
+                      "the output is taken from the `bot_message` context variable without testing whether the response is a rail exception: with enable_rails_exceptions an output rail blocks by "
+                      "raising, `bot_message` still holds the BLOCKED text, and that text is returned to the caller", line=a.lineno)
+    ctx.floor("C02.c.integration-reply", RR, "reads of the bot_message variable in the integration", n, 1)
+
+
+def a_generated_rails_imports(ctx):
+    """Colang 2.x with rails listed in config.yml: the loader GENERATES the `input rails` / `output rails` flows and prefixes them with `import guardrails` - the library that
+    hooks the rails into every bot message.  The generated text is parsed after all files and imports were loaded; unless its own imports are resolved as well, the hook is
+    never installed and the configured rails silently never run (F47)."""
+    t = ctx.tree.ast(CFGPY)
+    fn = None
+    for f in functions(t):
+        if f.name == "_parse_colang_files_recursively":
+            fn = f
+    if fn is None:
+        raise AnalysisError("_parse_colang_files_recursively not found", anchor=CFGPY + "::_parse_colang_files_recursively")
+    gen = [a for a in ast.walk(fn) if isinstance(a, ast.Assign) and isinstance(a.value, ast.Call) and src(a.value.func) == "parse_colang_file"
+           and any(k.arg == "content" and "flow_definitions" in src(k.value) for k in a.value.keywords)]
+    if not gen:
+        ctx.check("C02.a.generated-rails-imports", CFGPY, fn.name, "generated rails flows", True, "no rails flows are generated from config.yml any more", line=fn.lineno)
+        return
+    g = gen[0]
+    var = src(g.targets[0])
+    later = [c for c in ast.walk(fn) if isinstance(c, ast.Call) and src(c.func) == "_load_imported_paths" and c.lineno > g.lineno]
+    joined = [c for c in ast.walk(fn) if isinstance(c, ast.Call) and src(c.func) == "_join_config" and c.lineno > g.lineno and "import_paths" in src(c) and var in src(c)]
+    gf = find_fn(t, "_generate_rails_flows")
+    imports = sorted({x.value for x in ast.walk(gf) if isinstance(x, ast.Constant) and isinstance(x.value, str) and x.value.startswith("import ")}) if gf else []
+    ok = bool(later) and bool(joined)
+    ctx.check("C02.a.generated-rails-imports", CFGPY, fn.name, first_line(g, 70), ok or not imports,
+              "the imports of the generated rails flows are resolved" if ok or not imports else
+              "the generated rails flows start with %s, but after they are parsed nothing joins their import_paths and loads them: unless the user's own Colang imports `guardrails`, the `_bot_say` hook is never "
+              "installed and the rails listed under rails.input/output.flows in config.yml never run (no error, no warning about it)" % imports, line=g.lineno)
+
+
+def find_fn(t, name):
+    for f in functions(t):
+        if f.name == name:
+            return f
+    return None
